@@ -43,6 +43,15 @@ where
       let timer = Arc::new(RwLock::new(None::<Subscription<'a>>));
       let scheduler_ctor = scheduler_ctor.clone();
 
+      // the pending deadline is cancelled when the subscription ends, whatever ends it
+      let timer_on_finalize = Arc::clone(&timer);
+      sctl.set_on_finalize(move || {
+        let timer = timer_on_finalize.write().unwrap().take();
+        if let Some(timer) = timer {
+          timer.unsubscribe();
+        }
+      });
+
       let sctl_next = sctl.clone();
       let sctl_error = sctl.clone();
       let sctl_complete = sctl.clone();
@@ -58,7 +67,7 @@ where
 
           sctl_next.sink_next(x);
 
-          {
+          if sctl_next.is_subscribed() {
             let sctl = sctl_next.clone();
             let scheduler_ctor = scheduler_ctor.clone();
             *timer.write().unwrap() = Some(
@@ -74,6 +83,13 @@ where
                   junk_complete!(),
                 ),
             );
+            if !sctl_next.is_subscribed() {
+              // the subscription ended while the deadline was being armed
+              let timer = timer.write().unwrap().take();
+              if let Some(timer) = timer {
+                timer.unsubscribe();
+              }
+            }
           }
         },
         move |_, e| {
